@@ -1,6 +1,7 @@
 import PyYetiVerif.Lemmas.SuCoef
 import PyYetiVerif.Lemmas.SuPartition
 import Mathlib.Analysis.SpecialFunctions.Complex.Log
+import Mathlib.Data.List.Sort
 /-!
 # C01 — exact time-domain solution for piecewise-linear / constant forcing
 
@@ -350,6 +351,37 @@ non-rf-relative ones `[0]`, not the full-size `rb = [1]` -/
 example : coefRb (mkPart 3 (some [1]) [0] fun _ => false) = [0] ∧
     (mkPart 3 (some [1]) [0] fun _ => false).rb = [1] ∧
     (mkPart 3 (some [1]) [0] fun _ => false).el = [2] := by decide
+
+/-- the content of repair 6524aad: the rigid-body modes listed by `_rb` (positions in the non-rf
+partition) are, in the same order, the modes listed by `rb` -/
+theorem rb_order_agrees (n : Nat) (rb rf : List Nat) (small : Nat → Bool) (hnd : rb.Nodup)
+    (hrb : ∀ i ∈ rb, i < n) (hdis : ∀ i ∈ rb, i ∉ rf) :
+    take (mkPart n (some rb) rf small).nonrf (mkPart n (some rb) rf small).rb'
+      = (mkPart n (some rb) rf small).rb ∧
+    (mkPart n (some rb) rf small).rb.Pairwise (· < ·) := by
+  have hL : take (nonrf n rf) (relWhere (nonrf n rf) rb.contains)
+      = (List.range n).filter fun i => (!rf.contains i) && rb.contains i := by
+    rw [take_relWhere_eq_filter, nonrf, List.filter_filter]
+    congr 1; funext i; exact Bool.and_comm _ _
+  have hLs : ((List.range n).filter fun i => (!rf.contains i) && rb.contains i).Pairwise (· < ·) :=
+    List.Pairwise.sublist List.filter_sublist List.pairwise_lt_range
+  have hperm : ((List.range n).filter fun i => (!rf.contains i) && rb.contains i).Perm (sortNat rb) := by
+    refine (List.perm_ext_iff_of_nodup (hLs.imp (fun h => Nat.ne_of_lt h)) ((sortNat_perm rb).nodup_iff.2 hnd)).2 ?_
+    intro a
+    rw [mem_sortNat, List.mem_filter, List.mem_range]
+    simp only [Bool.and_eq_true, Bool.not_eq_true', List.contains_eq_mem, decide_eq_true_eq,
+      decide_eq_false_iff_not]
+    exact ⟨fun h => h.2.2, fun h => ⟨hrb a h, hdis a h, h⟩⟩
+  have heq : ((List.range n).filter fun i => (!rf.contains i) && rb.contains i) = sortNat rb :=
+    hperm.eq_of_pairwise' (hLs.imp (fun h => Nat.le_of_lt h)) (sortNat_pairwise rb)
+  refine ⟨?_, ?_⟩
+  · show take (nonrf n rf) (relWhere (nonrf n rf) rb.contains) = sortNat rb
+    rw [hL, heq]
+  · show (sortNat rb).Pairwise (· < ·)
+    rw [← heq]; exact hLs
+
+example : take (mkPart 4 (some [3, 1]) [0] fun _ => false).nonrf (mkPart 4 (some [3, 1]) [0] fun _ => false).rb' = [1, 3] ∧
+    (mkPart 4 (some [3, 1]) [0] fun _ => false).rb = [1, 3] := by decide
 
 end partition
 
